@@ -12,7 +12,7 @@ from . import s1
 
 ID = "C12"
 RULE = (
-    "every prefix (trie node) over the dyadic grid for every configuration; the reported history is compared entry by "
+    "every prefix (trie node) over the dyadic grid for every configuration, plus 'long thin' samples (short prefix then a constant run, to length 24/40); the reported history is compared entry by "
     "entry with the published product evaluated in exact rational arithmetic (eta_i / lambda_i taken from the library's "
     "own estimator or bet); plus, for every betting configuration and node, the ALPHA form driven by "
     "eta_i = mu_i(1+lambda_i(u-mu_i)) must reproduce the betting history; plus the two conversion functions on a "
@@ -236,7 +236,7 @@ def run_shard(sh, rec):
 
 
 def explore(tier, seed):
-    return core.pmap(run_shard, ["conv"] + s1.configs(tier), seed, progress="C12")
+    return core.pmap(run_shard, ["conv"] + s1.configs(tier) + s1.long_configs(tier), seed, progress="C12")
 
 
 def run_case(case):
